@@ -167,8 +167,8 @@ class C07(Prop):
               ("originCallOut", "ORIGIN_CALL_OUT"), ("originEfun", "ORIGIN_EFUN"),
               ("originFunctionPointer", "ORIGIN_FUNCTION_POINTER"), ("originFunctional", "ORIGIN_FUNCTIONAL")]
     const_headers = ["lib/efuns/options.h", "lpc/program.h", "lpc/include/origin.h"]
-    quick_n = 220
-    thorough_n = 4000
+    quick_n = 1200
+    thorough_n = 12000
     search_n = 600
     design_ref = "5/C07"
     technique = ("Lean 4 proof (binary search + inherit recursion vs. reference resolver, cache invariant by induction over "
@@ -416,6 +416,11 @@ class C07(Prop):
              "by_origin": {}, "programs": 0, "max_depth": 0, "multi_inherit_programs": 0, "alias_slots": 0,
              "super_calls": 0, "local_calls": 0, "fp_calls": 0, "prototypes": 0, "inherit_mods": {}}
         for c in cases:
+            try:
+                g, order = parse_graph(c.lines)
+                h["max_depth"] = max([h["max_depth"]] + [depth(g, n) for n in order])
+            except Exception:
+                pass
             for l in c.lines:
                 t = l.split()
                 if not t:
@@ -450,8 +455,7 @@ class C07(Prop):
                 elif l.endswith("!fail"):
                     h["load_failed"] += 1
                 elif l.startswith("tbl "):
-                    h["alias_slots"] += len(re.findall(r"[,=](\d+):[ID]:", l)) and sum(
-                        1 for m in re.findall(r"[,=](\d+):[ID]:", l) if int(m) & 32)
+                    h["alias_slots"] += sum(1 for m in re.findall(r"[,=](\d+):[ID]:", l) if int(m) & 32)
         return h
 
 
